@@ -14,3 +14,8 @@ def run(tier, seed):
     from checks import c19_svh
     c19_svh.run(res, tier, seed)
     return res.finish()
+
+
+def replay(path):
+    from checks.containers import replay_container
+    return replay_container("C19", path)
